@@ -18,6 +18,14 @@ LT2 = (re.compile(r"Evr<'a>"), 'Evr', None, 'R5-lifetime-parameter')
 SPLIT = (re.compile(r"\b(\w+)\.split_once\(('(?:[^'\\]|\\.)')\)"), r'split_once_char(\1, \2)', None, 'R28-str::split_once(char)')
 RSPLIT = (re.compile(r"\b(\w+)\.rsplit_once\(('(?:[^'\\]|\\.)')\)"), r'rsplit_once_char(\1, \2)', None, 'R28-str::rsplit_once(char)')
 EMPTY = (re.compile(r'""'), 'empty_str()', None, 'R28-the empty string literal')
+_CH = r"('(?:[^'\\]|\\.)')"
+STRIDX = [
+    (re.compile(r"\b(\w+)\.find\(" + _CH + r"\)"), r'str_find_char(\1, \2)', None, 'R47-str::find(char): byte offset of the first occurrence'),
+    (re.compile(r"\b(\w+)\.rfind\(" + _CH + r"\)"), r'str_rfind_char(\1, \2)', None, 'R47-str::rfind(char): byte offset of the last occurrence'),
+    (re.compile(r"\b(\w+)\.chars\(\)\.position\(\|(\w+)\| \2 == " + _CH + r"\)"), r'chars_position(\1, \3)', None, 'R47-chars().position(): a CHARACTER index'),
+    (re.compile(r"&(\w+)\[\.\.(\w+(?: [+-] \d+)?)\]"), r'str_slice_to(\1, \2)', None, 'R47-slicing a str by byte offset: must be a character boundary'),
+    (re.compile(r"&(\w+)\[(\w+(?: [+-] \d+)?)\.\.\]"), r'str_slice_from(\1, \2)', None, 'R47-slicing a str by byte offset: must be a character boundary'),
+]
 
 
 def write_rule():
@@ -80,6 +88,50 @@ pub fn rsplit_once_char<'a>(s: &'a str, c: char) -> (r: Option<(&'a str, &'a str
         Some((a, b)) => s@ == a@ + seq![c] + b@ && !occurs(b@, c),
     },
 { s.rsplit_once(c) }
+// ---- R47: byte offsets into a str -----------------------------------------------------------------
+/// slicing a `str` at byte offset n panics unless n is a character boundary; what the two parts are is a function of
+/// the text and the offset (all three uninterpreted: nothing is assumed about UTF-8 beyond what the helpers state)
+pub uninterp spec fn char_boundary(s: Seq<char>, n: int) -> bool;
+pub uninterp spec fn cut_to(s: Seq<char>, n: int) -> Seq<char>;
+pub uninterp spec fn cut_from(s: Seq<char>, n: int) -> Seq<char>;
+#[verifier::external_body]
+pub fn str_slice_to<'a>(s: &'a str, n: usize) -> (r: &'a str)
+    requires char_boundary(s@, n as int),
+    ensures r@ == cut_to(s@, n as int),
+{ &s[..n] }
+#[verifier::external_body]
+pub fn str_slice_from<'a>(s: &'a str, n: usize) -> (r: &'a str)
+    requires char_boundary(s@, n as int),
+    ensures r@ == cut_from(s@, n as int),
+{ &s[n..] }
+/// `s.find(c)` / `s.rfind(c)` for an ASCII character c (one byte): the BYTE offset of its first / last occurrence; both
+/// that offset and the one after it are boundaries, and cutting there gives the text before and the text after
+#[verifier::external_body]
+pub fn str_find_char(s: &str, c: char) -> (r: Option<usize>)
+    requires (c as u32) < 128,
+    ensures match r {
+        None => !occurs(s@, c),
+        Some(b) => b < usize::MAX && char_boundary(s@, b as int) && char_boundary(s@, b + 1)
+            && s@ == cut_to(s@, b as int) + seq![c] + cut_from(s@, b + 1) && !occurs(cut_to(s@, b as int), c),
+    },
+{ s.find(c) }
+#[verifier::external_body]
+pub fn str_rfind_char(s: &str, c: char) -> (r: Option<usize>)
+    requires (c as u32) < 128,
+    ensures match r {
+        None => !occurs(s@, c),
+        Some(b) => b < usize::MAX && char_boundary(s@, b as int) && char_boundary(s@, b + 1)
+            && s@ == cut_to(s@, b as int) + seq![c] + cut_from(s@, b + 1) && !occurs(cut_from(s@, b + 1), c),
+    },
+{ s.rfind(c) }
+/// `s.chars().position(|x| x == c)`: the CHARACTER index of the first occurrence - not a byte offset
+#[verifier::external_body]
+pub fn chars_position(s: &str, c: char) -> (r: Option<usize>)
+    ensures match r {
+        None => !occurs(s@, c),
+        Some(k) => k < usize::MAX && k < s@.len() && s@[k as int] == c && !occurs(s@.subrange(0, k as int), c),
+    },
+{ s.chars().position(|x| x == c) }
 #[verifier::external_body]
 pub fn empty_str() -> (r: &'static str) ensures r@ == Seq::<char>::empty() { "" }
 
@@ -255,7 +307,7 @@ impl Evr {
     pub open spec fn wf(&self) -> bool { evr_wf(self.epoch@, self.version@, self.release@) }
 '''),
     Fn(VER, 'parse_values', impl="impl<'a> Evr<'a>",
-       subs=[SPLIT, RSPLIT, EMPTY,
+       subs=[SPLIT, RSPLIT, EMPTY] + STRIDX + [
              ("pub fn parse_values(evr: &'a str) -> (&'a str, &'a str, &'a str)", "pub fn parse_values<'a>(evr: &'a str) -> (out: (&'a str, &'a str, &'a str))", 1, 'R3-named-return')],
        spec='''    ensures
         // parsing the textual form of any EVR a real package can carry gives back identical components
@@ -340,7 +392,7 @@ impl Nevra {
        spec='''    ensures r@ == nevra_text(self.name@, epoch_or_zero(self.evr.epoch@), self.evr.version@, self.evr.release@, self.arch@),''',
        prologue='proof { reveal_strlit("."); reveal_strlit("-"); assert("."@ =~= seq![\'.\']); assert("-"@ =~= seq![\'-\']); }'),
     Fn(VER, 'parse_values', impl="impl<'a> Nevra<'a>",
-       subs=[SPLIT, RSPLIT, EMPTY,
+       subs=[SPLIT, RSPLIT, EMPTY] + STRIDX + [
              ("pub fn parse_values(nevra: &'a str) -> (&'a str, &'a str, &'a str, &'a str, &'a str)", "pub fn parse_values<'a>(nevra: &'a str) -> (out: (&'a str, &'a str, &'a str, &'a str, &'a str))", 1, 'R3-named-return')],
        spec='''    ensures
         // parsing the textual form of any NEVRA a real package can carry gives back identical components;
